@@ -176,9 +176,8 @@ func genCode(t *rapid.T) harness.Case {
 			sb.WriteString(atoms[rapid.IntRange(0, len(atoms)-1).Draw(t, "atom")])
 		}
 		l := sb.String()
-		if strings.Trim(l, " \t") == "" {
-			// what a whitespace-only line inside a code block inside a list item
-			// denotes is not fixed by the spec text: spelled as an empty line
+		if strings.Trim(l, " \t") == "" && strings.Contains(l, "\t") {
+			// a whitespace-only line with a tab mixes with the container indentation
 			l = ""
 		}
 		lines = append(lines, l)
@@ -243,6 +242,9 @@ func genCode(t *rapid.T) harness.Case {
 				src[i] = pre + l
 			case l == "" && strings.TrimSpace(cont) == "":
 				src[i] = ""
+			case strings.TrimSpace(l) == "" && strings.TrimSpace(cont) == "":
+				// a line of spaces in a list item: the item's indentation, then the content
+				src[i] = cont + l
 			default:
 				src[i] = cont + l
 			}
